@@ -195,7 +195,11 @@ def _machine(ctx, tier, stats, mod, deadline):
 
         def _fn(self, kind):
             q, k0, n = self.grid
-            return pw_arrays(kind, q, k0, n, 12 if big else 6, self.pool)
+            near = None
+            same = [sl for sl in self.state.slots if sl["kind"] == kind]
+            if same:
+                near = ps.fl(same[len(self.ops) % len(same)]["model"].x)
+            return pw_arrays(kind, q, k0, n, 12 if big else 6, self.pool, near)
 
         @rule(kind=st.sampled_from(["pwc", "pwl"]), data=st.data())
         def new_function(self, kind, data):
@@ -248,7 +252,7 @@ def _pair(draw, tier):
     pool = draw(st.lists(st.integers(1, max(1, n - 1)), max_size=5))
     mp = 7 if tier == "quick" else 16
     f = draw(pw_arrays(kind, q, k0, n, mp, pool))
-    g = draw(pw_arrays(kind, q, k0, n, mp, pool))
+    g = draw(pw_arrays(kind, q, k0, n, mp, pool, f["x"]))
     return dict(kind="pair", f=f, g=g, c=draw(st.sampled_from([0.5, 2.0, -1.0, 0.25])),
                 compiled=draw(st.booleans()))
 
@@ -304,6 +308,8 @@ def classify(case):
         labels.append("shared_interior_breakpoint")
     if len(f["x"]) == 2 or len(g["x"]) == 2:
         labels.append("single_piece_operand")
+    if any(0 < abs(a - b) < 1e-6 for a in f["x"] for b in g["x"]):
+        labels.append("almost_shared_breakpoint")
     return labels
 
 
